@@ -89,39 +89,55 @@ func GenScenario(r *rand.Rand, c04 bool) *Scenario {
 		}
 		return v
 	}
-	nsub := 0
-	subOpen := map[int]bool{}
-	subFinal := map[int]bool{}
-	n := 1 + r.Intn(6)
-	final := false
-	for i := 0; i < n && !final; i++ {
-		by := r.Intn(2)
-		switch k := r.Intn(12); {
-		case k == 0 && nsub < 2:
-			s.Steps = append(s.Steps, Step{Kind: "opensub", By: by, Amt: amt(), Sub: nsub})
-			subOpen[nsub] = true
-			nsub++
-		case k == 1 && len(subOpen) > 0:
-			for j := range subOpen {
-				if !subFinal[j] {
-					s.Steps = append(s.Steps, Step{Kind: "paysub", By: by, Amt: amt(), Accept: r.Intn(5) != 0, Sub: j})
-				}
-				break
-			}
-		case k == 2 && len(subOpen) > 0:
-			for j := range subOpen {
-				s.Steps = append(s.Steps, Step{Kind: "closesub", By: by, Sub: j})
-				delete(subOpen, j)
-				break
-			}
-		case k == 3:
-			s.Steps = append(s.Steps, Step{Kind: "tick", N: 1 + r.Intn(3)})
-		case k == 4 && len(subOpen) == 0 && i == n-1:
-			s.Steps = append(s.Steps, Step{Kind: "final", By: by})
-			final = true
-		default:
-			s.Steps = append(s.Steps, Step{Kind: "pay", By: by, Amt: amt(), Accept: r.Intn(5) != 0})
+	// the shape of the channel tree: how many sub-channels are open concurrently under the ledger channel
+	nsub := []int{0, 0, 0, 1, 1, 2, 2, 3}[r.Intn(8)]
+	pay := func() Step { return Step{Kind: "pay", By: r.Intn(2), Amt: amt(), Accept: r.Intn(5) != 0} }
+	for i := r.Intn(3); i > 0; i-- {
+		s.Steps = append(s.Steps, pay())
+	}
+	var open []int // sub-channels open at this point, in opening order
+	for k := 0; k < nsub; k++ {
+		s.Steps = append(s.Steps, Step{Kind: "opensub", By: r.Intn(2), Amt: amt(), Sub: k})
+		open = append(open, k)
+		if r.Intn(3) == 0 {
+			s.Steps = append(s.Steps, pay())
 		}
+	}
+	// activity in the ledger channel and in every open sub-channel, accepted and rejected updates, ticks
+	for i := 1 + nsub + r.Intn(4); i > 0; i-- {
+		switch k := r.Intn(8); {
+		case k < 4 && len(open) > 0:
+			s.Steps = append(s.Steps, Step{Kind: "paysub", By: r.Intn(2), Amt: amt(), Accept: r.Intn(5) != 0, Sub: open[r.Intn(len(open))]})
+		case k == 4:
+			s.Steps = append(s.Steps, Step{Kind: "tick", N: 1 + r.Intn(3)})
+		default:
+			s.Steps = append(s.Steps, pay())
+		}
+	}
+	// some sub-channels are closed cooperatively (settled into the parent), the others stay open
+	switch r.Intn(3) {
+	case 0: // all stay open: the settlement is a dispute over the whole tree
+	case 1: // close some
+		var rest []int
+		for _, k := range open {
+			if r.Intn(2) == 0 {
+				s.Steps = append(s.Steps, Step{Kind: "closesub", By: r.Intn(2), Sub: k})
+				if r.Intn(2) == 0 {
+					s.Steps = append(s.Steps, pay())
+				}
+			} else {
+				rest = append(rest, k)
+			}
+		}
+		open = rest
+	default: // close all
+		for _, k := range open {
+			s.Steps = append(s.Steps, Step{Kind: "closesub", By: r.Intn(2), Sub: k})
+		}
+		open = nil
+	}
+	if len(open) == 0 && r.Intn(3) == 0 {
+		s.Steps = append(s.Steps, Step{Kind: "final", By: r.Intn(2)})
 	}
 	if c04 {
 		// the adversary registers an old state: between two steps or during an update
@@ -415,6 +431,13 @@ func Execute(sc *Scenario) *Run {
 				continue
 			}
 			st.Accept = true
+			// go-perun's usage: the party that proposed the sub-channel (index 0 in it) sends the final update;
+			// the proposee registers the expected parent update when it accepts that final state
+			for _, p := range e.P {
+				if ch[p.I].Idx() == 0 {
+					st.By = p.I
+				}
+			}
 			if !ch[st.By].State().IsFinal {
 				update(ch, st, func(s *channel.State) { s.IsFinal = true })
 			}
